@@ -51,6 +51,7 @@ type EntrySpec struct {
 	Tiers    []string `json:"tiers"`    // if set, only run in these tiers
 	Describe string   `json:"describe"` // what the obligation states (bounds in words)
 	Havoc    []string `json:"havoc"`    // per-entry havoc stubs
+	Replace  map[string]string `json:"replace"` // per-entry replacements (added to the spec-level ones)
 }
 
 type Spec struct {
@@ -317,7 +318,14 @@ func runEntry(prog *ssa.Program, s *Spec, es EntrySpec, tier string) *EntryResul
 	for k, v := range s.Opaque {
 		e.opaque[k] = v
 	}
-	for real, stub := range s.Replace {
+	allReplace := map[string]string{}
+	for k, v := range s.Replace {
+		allReplace[k] = v
+	}
+	for k, v := range es.Replace {
+		allReplace[k] = v
+	}
+	for real, stub := range allReplace {
 		sf := findFunc(prog, stub)
 		if sf == nil {
 			res.Status = "broken"
